@@ -581,3 +581,40 @@ pub fn materialise(pool: &[Base], c: &MutCase) -> (HashId, Triple, String, bool)
     }
     (b.hash, t, cls, changed)
 }
+
+/// A *well-formed* but forged triple: correct lengths and type codes for the given levels (any
+/// heights up to 25 - no tree is built), random contents. `qsel` picks the leaf index class per
+/// level: 0 first, 1 middle, 2 last, 3 one beyond the last (out of range), 4 pseudo-random.
+pub fn forge(hash: HashId, levels: &[Level], qsel: u8, tag: u64, msg_len: usize) -> Triple {
+    let n = hash.n();
+    let m = Model::rfc(hash);
+    let mut sig: Vec<u8> = ((levels.len() - 1) as u32).to_be_bytes().to_vec();
+    let lms_pub = |lv: &Level, t: u64| -> Vec<u8> {
+        let mut p = crate::refmodel::h_to_lms_type(lv.1).to_be_bytes().to_vec();
+        p.extend_from_slice(&crate::refmodel::w_to_ots_type(lv.0).to_be_bytes());
+        p.extend_from_slice(&gen::expand(t, 16 + n));
+        p
+    };
+    for (i, lv) in levels.iter().enumerate() {
+        let p = m.ots(lv.0);
+        let leaves: u64 = 1u64 << lv.1;
+        let q: u64 = match qsel % 5 {
+            0 => 0,
+            1 => leaves / 2,
+            2 => leaves - 1,
+            3 => leaves,
+            _ => u64::from_be_bytes(gen::expand(tag ^ i as u64, 8).try_into().unwrap()) % leaves,
+        };
+        sig.extend_from_slice(&(q as u32).to_be_bytes());
+        sig.extend_from_slice(&p.typecode.to_be_bytes());
+        sig.extend_from_slice(&gen::expand(tag.wrapping_add(i as u64 * 3 + 1), n * (p.p + 1)));
+        sig.extend_from_slice(&crate::refmodel::h_to_lms_type(lv.1).to_be_bytes());
+        sig.extend_from_slice(&gen::expand(tag.wrapping_add(i as u64 * 3 + 2), n * lv.1 as usize));
+        if i + 1 < levels.len() {
+            sig.extend_from_slice(&lms_pub(&levels[i + 1], tag.wrapping_add(i as u64 * 3 + 3)));
+        }
+    }
+    let mut pk = (levels.len() as u32).to_be_bytes().to_vec();
+    pk.extend_from_slice(&lms_pub(&levels[0], tag ^ 0xf00d));
+    Triple { msg: gen::expand(tag ^ 0x6d, msg_len), sig, pk }
+}
